@@ -27,6 +27,7 @@ struct FileSet
     bool cnOnlyUnits = false;
     bool nameClash = false;
     bool shallowImports = false;
+    bool encapsulatedTargets = false;
 };
 
 // structural class of a before/after difference reported by firstDiff()
@@ -301,6 +302,21 @@ static void emitFile(const IrModel &flat, const std::string &fileName, const std
             f.comps[static_cast<size_t>(localIndex[c])].parent = localIndex[p];
             f.comps[static_cast<size_t>(localIndex[p])].children.push_back(localIndex[c]);
         }
+    }
+    // In a library file the imported component may itself sit below another component: the import then targets an
+    // ENCAPSULATED component of the library model (component names are unique model-wide, the reference is by name).
+    if (depth >= 1 && rng.chance(0.3)) {
+        IrComponent holder;
+        holder.name = "holder_" + std::to_string(slot);
+        int hi = static_cast<int>(f.comps.size());
+        for (size_t i = 0; i < f.comps.size(); ++i) {
+            if (f.comps[i].parent < 0) {
+                f.comps[i].parent = hi;
+                holder.children.push_back(static_cast<int>(i));
+            }
+        }
+        f.comps.push_back(holder);
+        fs.encapsulatedTargets = true;
     }
     // connections between present components; placeholders on imported sides
     for (const auto &cn : flat.conns) {
@@ -578,6 +594,9 @@ void vh_run_case(Ctx &ctx)
     }
     std::string shape = "files=" + std::to_string(fs.files.size()) + " imported-subtrees=" + std::to_string(fs.importedSubtrees) + " depth=" + std::to_string(fs.depth) + (fs.unitsLib ? " units-lib" : "") + (cnOnly ? " cn-units" : "");
     std::string tagFeatures = std::string(fs.unitsLib ? "+units-lib" : "") + (chains ? "+units-chains" : "") + (cnOnly ? "+cn-units" : "") + (fs.depth >= 2 ? "+nested-imports" : "") + (fs.nameClash ? "+units-name-clash" : "") + (fs.shallowImports ? "+import-with-local-children" : "");
+    if (fs.encapsulatedTargets) {
+        stat("hierarchies_importing_an_encapsulated_component");
+    }
     seen("hierarchy_shape", "files" + std::to_string(std::min<size_t>(fs.files.size(), 6)) + "-depth" + std::to_string(fs.depth) + tagFeatures);
 
     auto parser = Parser::create(true);
